@@ -57,6 +57,18 @@ CHECKS = {
         "Trusted: CPython ints; zone.get_utc_offset (decided by C04-C06); day<->date bijection (C01).",
         "DESIGN.md §2 C11",
     ),
+    "C14": (
+        "exploration",
+        "round-trip property testing (enumerated primitive domains + Hypothesis) and byte-for-byte differential against the reference compiler's files",
+        "Every writer primitive is written with a sentinel and read back: equal value, exact consumption, documented "
+        "encoded size; compact milliseconds over multiples of 30 min / 1 min / 1 s +/- {0,1,29,30,31} ms (all 172799999 "
+        "values in thorough), all 129601 offsets, 7-bit borders of counts, every transition encoding class and border, "
+        "strings/dictionaries with and without pool, all flag combinations of yearly rules, recurrences, alternating "
+        "maps, generated precalculated zones; all 724 rule-based zones of the two real files are decoded by the repo "
+        "reader and re-encoded by the repo writer to identical bytes.",
+        "Trusted: ref/nzd.py for slicing zone payloads out of the real files; the documented size rules.",
+        "DESIGN.md §2 C14",
+    ),
     "C15": (
         "exploration",
         "differential / round-trip testing against the Python standard library datetime types (dates enumerated, rest Hypothesis-generated)",
